@@ -42,7 +42,7 @@ var propRules = map[string]*PropSpec{
 		Technique:  techMix,
 	},
 	"C02": {
-		Rules:       []string{"A2.32", "A3.32", "F3.32", "F8.bitmap", "F8.run", "F5", "F8.scratch", "A4", "F13.32"},
+		Rules:       []string{"A2.32", "A3.32", "F3.32", "F8.bitmap", "F8.run", "F5", "F8.scratch", "A4", "F13.32", "U6"},
 		Explanation: explBase + " C02: every mutator obtains its container through the copy-before-write gate, stores only owned containers, drops emptied chunks, keeps flags aligned with moved containers, re-types/minimises results and inserts at a position searched in the same table.",
 		Decided: []string{
 			"the container returned by an in-place kernel applied to a slot's container is stored back into the table (CheckedAdd/CheckedRemove/Add/Remove/AddRange ...)",
@@ -51,17 +51,19 @@ var propRules = map[string]*PropSpec{
 			"Remove/CheckedRemove/RemoveRange/Flip test emptiness of every may-empty result and drop the chunk",
 			"bitmap results <= 4096 are converted; run results are minimised before they are stored",
 			"new keys are inserted at the index searched in the receiver's own table",
+			"the 64-bit bounds of AddRange/RemoveRange/Flip are cut to 32 bits only where they are bounded below 2^32 on every path (a range beyond the universe is empty, not wrapped into it)",
 		},
 		NotDecided: []string{"CheckedAdd/CheckedRemove return values", "first/middle/last chunk range arithmetic", "word masks", "that the replayed set equals the model set"},
 		Technique:  techOwn,
 	},
 	"C03": {
-		Rules:       []string{"A1.api32", "A1.kernel", "F1", "F11", "G1", "F3.32", "F3.64", "A1.api64"},
+		Rules:       []string{"A1.api32", "A1.kernel", "F1", "F11", "G1", "F3.32", "F3.64", "A1.api64", "U6"},
 		Explanation: explBase + " C03: the clause 'queries never modify the bitmap' is decided for every exported read-only function; kind dispatch of the query paths is exhaustive.",
 		Decided: []string{
 			"queries use no package-level scratch memory",
 			"no mutator leaves an empty chunk/bucket behind (IsEmpty, Minimum, Maximum rely on it)",
-			"no exported query (cardinality, rank/select, extrema, Contains, Equals, ToArray, Checksum, Stats, iterators' constructors ...) changes the contents of its receiver or argument", "read-only container kernels never write receiver or operand", "type switches on the query paths handle all kinds", "no scalar query (Equals, Contains, Rank, cardinalities ...) reads the copy-on-write flags"},
+			"no exported query (cardinality, rank/select, extrema, Contains, Equals, ToArray, Checksum, Stats, iterators' constructors ...) changes the contents of its receiver or argument", "read-only container kernels never write receiver or operand", "type switches on the query paths handle all kinds", "no scalar query (Equals, Contains, Rank, cardinalities ...) reads the copy-on-write flags",
+			"the 64-bit bounds of CardinalityInRange/IntersectsWithInterval are cut to 32 bits only where they are bounded below 2^32 on every path"},
 		NotDecided: []string{"every numeric result (rank, select, cardinalities, extrema)", "Checksum invariance under Clone / round trip", "AVX2 vs portable popcount"},
 		Technique:  techOwn,
 	},
